@@ -70,4 +70,34 @@ CLAIMS["C03"] = {
     "note": _COMMON_NOTE + "H-W2, H-W4, H-W5 validated by the oracle.",
     "technique": "Coq fixpoint lemmas + idempotence oracle",
 }
+CLAIMS["C05"] = {
+    "text": "Proof (Coq), partial: a line-start token carrying `level` indentations and no continuation is rendered as the line breaks followed by exactly level units (C05_level_rendering, C05_level_units). That the wrapper starts every top-level logical line at `level` indentations is an acceptance predicate evaluated on every real trace (unit levels). That the grammar gives each statement its own logical line at depth d+1 inside a block opened at depth d is NOT modelled: it is decided by the oracle, which checks every generator-marked statement head, declaration member and block closer of grammar-generated programs (all layouts, begin styles, widths) against line start and indentation in the real output.",
+    "note": _COMMON_NOTE + "The parser grammar is an oracle; the property's main clause rests on the generator-marked oracle.",
+    "technique": "Coq proof (rendering) + generator-marked structural oracle",
+}
+CLAIMS["C11"] = {
+    "text": "Proof (Coq) of supporting lemmas only: the penalty is antitone in the limit and equal when everything fits, fitting is monotone, an ideal minimiser over a width-independent candidate set would be width-stable, and wrap_column reaches the wrapper only at the modelled sites (generated inventory). The wrapper's heuristic search is not modelled: the three clauses are decided by the width-pair oracle on the real formatter. Clause 2 (widening never adds a line) is genuinely false for a penalty-based wrapper and is reported as KNOWN-FINDING (F24 forced overflow, F26 cheaper break kind); F25 (multi-line string measurement) likewise.",
+    "note": _COMMON_NOTE + "Main clause decided by the oracle; theorems are supporting lemmas.",
+    "technique": "Coq supporting lemmas + width-pair oracle",
+}
+CLAIMS["C16"] = {
+    "text": "Proof (Coq): on a model of the file layer (POSIX read/seek/write/set_len, the operation sequence of each mode, abstract formatter) — after seek 0; write_all; set_len the file holds exactly the new bytes for every old length; files mode leaves the bytes that stdin->stdout prints (proviso proved for UTF-8/16, refuted for non-canonical legacy bytes = F8); check fails iff the text differs from its formatting; stdout and check modes cannot write; decode or encode errors leave the file untouched and set the error flag. The model's predictions (file bytes, stdout bytes, error flag per mode) are compared with the real binary on every UTF case; the syscall sequence of each mode (strace) is compared with the modelled operation sequence; path forms and mode defaults are exercised on the binary.",
+    "note": _COMMON_NOTE + "File system and legacy codecs are contracts; stdout failures are not modelled.",
+    "technique": "Coq proof over file-state machine + binary-level differential + syscall trace",
+}
+CLAIMS["C17"] = {
+    "text": "Proof (Coq): UTF-8 and the two hand-written UTF-16 encoders round-trip in both directions over all scalar values (surrogate pairs included), a BOM decides the encoding over the configured one and is preserved, bytes written = BOM ++ encode(format(decode body)), malformed input is rejected (and, by C16, never rewritten), unchanged text re-encodes to the original bytes for UTF-8/16. The model is compared with the real binary byte for byte on UTF-8/UTF-16 with and without BOM (file and stdin paths, malformed inputs); legacy code pages (windows-1252/1251, shift_jis, gbk, big5, euc-kr) are checked against the formula with independent codecs.",
+    "note": _COMMON_NOTE + "Legacy codecs are parameters of the model (encoding_rs); checked by differential runs on sampled characters.",
+    "technique": "Coq proof (codecs, BOM logic) + byte-level differential on the binary",
+}
+CLAIMS["C18"] = {
+    "text": "Proof (Coq): in a model with per-worker buffers, a shared file system and error flag, for duplicate-free paths, ANY assignment of files to workers and ANY interleaving of the read / write_all / set_len steps of distinct files, every file ends exactly as in its solo run, unlisted files are untouched, and the flag is set iff some file failed (C18_batch_eq_solo, C18_batch_exit_code); clearing the buffer makes a worker's history irrelevant, and without it the result would differ (refutation); duplicate paths are refuted at model level (F12). The shared-state inventory of the code base is proved equal to the modelled set. Real rayon schedules are sampled (thread counts 1..16, repetitions) against one invocation per file, with injected failures.",
+    "note": _COMMON_NOTE + "Real interleavings are sampled, not enumerated; memory model of the AtomicPtr dispatch is not modelled (both routines are proved equal, C13).",
+    "technique": "Coq proof over all schedules of a step-level model + thread-matrix differential",
+}
+CLAIMS["C19"] = {
+    "text": "Proof (Coq) on a thin model: the ancestor search returns the deepest ancestor-or-self directory containing pasfmt.toml (None iff none) within depth+1 probes; the last -C option wins over the file, the file over the defaults; --config-file wins over the search and must exist; mode defaults and the files+stdin rejection. clap/toml/serde/config are parameters, so the property itself is decided by the differential run of the real binary from nested working directories: equal effective configurations (options split arbitrarily between an ancestor file, --config-file and -C, with decoy files farther up) give byte-identical output; 14 invalid configurations exit non-zero and touch no file.",
+    "note": _COMMON_NOTE + "The parsing libraries are parameters; the model is thin and says so.",
+    "technique": "Coq proof (search, precedence) + differential runs of the binary",
+}
 NOT_CLAIMED = {}
